@@ -973,6 +973,14 @@ theorem C19_driver_scalar_text (x y : Fl) (hx : x.v < ell) (hy : y.v < ell) :
   ⟨WireThm.scalar_roundtrip x hx, by rw [hexOfScalar, WireThm.natToLe_eq_leBytes], WireThm.hexOfScalar_length x,
    WireThm.hexOfScalar_inj x y hx hy, WireThm.hexToBytes_bytesToHex⟩
 
+open Model Model.Wire in
+/-- **C19 (inputs of the driver are canonical).** Whatever text arrives, a scalar the driver accepts is a canonical
+    representative `< ℓ` — the hypothesis under which `C02_driver_field` identifies the driver's arithmetic with `ZMod ℓ`
+    and `C19_driver_scalar_text` gives the round trip — and a non-canonical 32-byte string is read as its residue, as
+    `Scalar::from_bytes_mod_order` does. -/
+theorem C19_driver_scalar_canonical (s : String) (x : Fl) (h : scalarOfHex s = some x) : x.v < ell :=
+  WireThm.scalarOfHex_canonical s x h
+
 /-- non-vacuity: the scalar ℓ − 1 is canonical, and its bytes are the well-known little-endian string `ecd3f55c…10` -/
 example : (⟨Model.ell - 1⟩ : Model.Fl).v < Model.ell ∧
     Model.Codec.leBytes 32 (Model.ell - 1) =
